@@ -574,6 +574,28 @@ theorem run_returns (i : Input) : (run i).res ≠ .hang ∧ (run i).res ≠ .pan
     · rcases updCall_res i.table f i.cid (i.beh 2) with h | h | h <;> simp [h]
     · rcases addCall_res i.table i.cid i.depth (i.beh 2) with h | h <;> simp [h]
 
+/-- the transcribed conversation never ends only because the caller's context did -/
+theorem run_no_errctx (i : Input) : (run i).res ≠ .errctx := by
+  cases hop : i.op with
+  | unpin =>
+    simp only [run, hop, unpin]
+    by_cases hd : i.unpinDisable = true
+    · simp [hd]
+    · simp only [hd, if_false, Bool.false_eq_true]
+      rcases rmCall_res i.table i.cid (i.beh 0) with h | h <;> simp [h]
+  | ls =>
+    simp only [run, hop, lsOp]
+    split <;> simp
+  | pin =>
+    simp only [run, hop]
+    rcases pin_cases i with ⟨_, hp⟩ | ⟨h0, hp⟩ | ⟨s, h0, hs, hsrc, hp⟩ | ⟨s, f, h0, hs, hsrc, hu, hp⟩ |
+        ⟨s, f, h0, hs, hsrc, hu, hp⟩ <;> rw [hp]
+    · simp
+    · simp
+    · rcases addCall_res i.table i.cid i.depth (i.beh 1) with h | h <;> simp [h]
+    · rcases updCall_res2 i.table f i.cid (i.beh 2) with h | h <;> simp [h]
+    · rcases addCall_res i.table i.cid i.depth (i.beh 2) with h | h <;> simp [h]
+
 /-! ### every output the model admits satisfies every clause -/
 
 /-- C16 at full strength: whatever the real connector may show according to the model satisfies the
@@ -666,7 +688,10 @@ theorem allowed_holds (i : Input) (o : Output) (hw : wf i = true) (ha : allowed 
           · simp [h1 hne, hr]
           · simp [h1 hne]
       · simp [hop]
-  simp [holds, clauses, c1, c2, c3, c4, c5, c6, c7, c8, c9, c10, c11]
+  have c12 : cPinGivesUp i o = true := by
+    rw [cPinGivesUp_iff, hres]
+    exact fun _ => ⟨run_no_errctx i, (run_returns i).1⟩
+  simp [holds, clauses, c1, c2, c3, c4, c5, c6, c7, c8, c9, c10, c11, c12]
 
 /-! ### what the Bool checker says, as a proposition -/
 
@@ -688,13 +713,14 @@ theorem holds_iff (i : Input) (o : Output) : holds i o = true ↔
      (i.op = .pin → (∃ x ∈ served i o, isPinning x.1 = true ∧ (x.2 = .stall ∨ x.2 = .noProgress)) →
         o.res = .err) ∧
      (o.res ≠ .hang ∧ o.res ≠ .panic) ∧
+     (i.op = .pin → o.res ≠ .errctx ∧ o.res ≠ .hang) ∧
      (∀ f t u, Req.upd f t u ∈ o.trace → i.op = .pin ∧ i.src = some f ∧ t = i.cid ∧ i.table f = .r) ∧
      (∀ f t u, Req.upd f t u ∈ o.trace → u = false) ∧
      (∀ s, i.src = some s → i.op = .pin →
         (s ≠ i.cid → o.final s = i.table s) ∧ (i.table s = .r → o.final s = .r))) := by
   simp only [holds, clauses, List.all_cons, List.all_nil, Bool.and_true, Bool.and_eq_true,
     cPinSound_iff, cUnpinSound_iff, cLsTruthful_iff, cErrorsReported_iff, cNoRequestWhenAlready_iff,
-    cUnpinAbsentOk_iff, cStallTimesOut_iff, cReturns_iff, cUpdateOnlyIfRecursive_iff,
+    cUnpinAbsentOk_iff, cStallTimesOut_iff, cReturns_iff, cPinGivesUp_iff, cUpdateOnlyIfRecursive_iff,
     cUpdateUnpinFalse_iff, cSourceKept_iff]
 
 /-! ### the hypotheses are met by non-trivial inputs -/
@@ -747,6 +773,138 @@ def exUnpinAbsent : Input :=
 
 example : wf exUnpinAbsent = true ∧ (run exUnpinAbsent).trace = [.rm 0] ∧ (run exUnpinAbsent).res = .ok := by
   decide
+
+/-! ### which configured time ends which request (governance table regenerated from ipfshttp.go) -/
+
+/-- today's source: every daemon request of Pin / Unpin / PinLsCid runs under a configured deadline or the
+progress watchdog, pin/add also against a stream that stays alive without progress; so does every request
+of the six single-request methods -/
+theorem gen_steps_governed : allGoverned Gen.ctxSites = true ∧ Aux.allGoverned Gen.ctxSites = true := by decide
+
+/-- which configuration field it is: look-ups `ipfs_request_timeout`, pin/update `pin_timeout`, pin/add the
+watchdog over `pin_timeout` (and no plain deadline, which would cut a slow but progressing pin), pin/rm
+`unpin_timeout`, repo/gc `repogc_timeout` -/
+theorem gen_governor_table :
+    chainGoverned (· == .timeout "IPFSRequestTimeout") Gen.ctxSites lsChain = true ∧
+    chainGoverned (· == .timeout "PinTimeout") Gen.ctxSites Step.pinUpd.chain = true ∧
+    chainGoverned isWatchdog Gen.ctxSites Step.pinAdd.chain = true ∧
+    chainGoverned isDeadline Gen.ctxSites Step.pinAdd.chain = false ∧
+    chainGoverned (· == .timeout "UnpinTimeout") Gen.ctxSites Step.unpinRm.chain = true ∧
+    chainGoverned (· == .timeout "RepoGCTimeout") Gen.ctxSites Aux.Op.repoGC.chain = true := by decide
+
+theorem stepGoverned_of_all (sites : List Dec.CtxSite) (h : allGoverned sites = true) (s : Step) (c : Cls) :
+    stepGoverned sites s c = true := by
+  simp only [allGoverned, Bool.and_eq_true, List.all_eq_true] at h
+  have hs : s ∈ Step.all := by cases s <;> simp [Step.all]
+  unfold stepGoverned
+  by_cases hc : (c == .noProgress && s == .pinAdd) = true
+  · have hs' : s = .pinAdd := by
+      simp only [Bool.and_eq_true, beq_iff_eq] at hc; exact hc.2
+    rw [if_pos hc, hs']; exact h.2
+  · rw [if_neg hc]; exact h.1 s hs
+
+theorem firstUngoverned_none (sites : List Dec.CtxSite) (h : allGoverned sites = true) (i : Input) (tr : List Req) :
+    firstUngoverned sites i tr = none := by
+  unfold firstUngoverned
+  rw [List.find?_eq_none]
+  intro k _
+  cases hr : tr[k]? with
+  | none => simp
+  | some r =>
+    simp only
+    cases hs : stepOf i.op r k with
+    | none => simp
+    | some s => simp [stepGoverned_of_all sites h]
+
+/-- with every step governed the interpreted model is the transcribed one: for all inputs -/
+theorem runCtx_eq_run (sites : List Dec.CtxSite) (h : allGoverned sites = true) (i : Input) :
+    runCtx sites i = run i := by
+  unfold runCtx
+  simp only [firstUngoverned_none sites h]
+
+theorem allowedCtx_eq (sites : List Dec.CtxSite) (h : allGoverned sites = true) (i : Input) (o : Output) :
+    allowedCtx sites i o = allowed i o := by
+  unfold allowedCtx allowed
+  rw [runCtx_eq_run sites h]
+
+/-- for ANY governance table: the call is left to the caller's context exactly when some request that the
+daemon does not answer is not governed -/
+theorem runCtx_errctx_iff (sites : List Dec.CtxSite) (i : Input) :
+    (runCtx sites i).res = .errctx ↔ (firstUngoverned sites i (run i).trace).isSome = true := by
+  cases h : firstUngoverned sites i (run i).trace with
+  | none => simp [runCtx, h, run_no_errctx i]
+  | some k => simp [runCtx, h]
+
+/-- "gives up with an error when a pin makes no progress for the configured time", for every request of the
+conversation: with a table in which every step is governed, `Pin` (and Unpin, PinLsCid) never ends only
+because the caller's context did -/
+theorem pin_gives_up (sites : List Dec.CtxSite) (h : allGoverned sites = true) (i : Input) :
+    (runCtx sites i).res ≠ .errctx ∧ (runCtx sites i).res ≠ .hang := by
+  rw [runCtx_eq_run sites h]
+  exact ⟨run_no_errctx i, (run_returns i).1⟩
+
+/-- what the driver compares the implementation with (`allowedCtx Gen.ctxSites`) satisfies every clause -/
+theorem allowedCtx_holds (i : Input) (o : Output) (hw : wf i = true) (ha : allowedCtx Gen.ctxSites i o = true) :
+    holds i o = true := by
+  rw [allowedCtx_eq _ gen_steps_governed.1] at ha
+  exact allowed_holds i o hw ha
+
+/-- the table of a source in which `PinLsCid` no longer puts `IPFSRequestTimeout` on its context -/
+def sitesNoLookupTimeout : List Dec.CtxSite :=
+  Gen.ctxSites.map (fun s => if s.fn == "PinLsCid" then { s with bounds := [] } else s)
+
+/-- the table of a source in which `pinUpdate` has no deadline (the state before the repair of K28) -/
+def sitesNoUpdateTimeout : List Dec.CtxSite :=
+  Gen.ctxSites.map (fun s => if s.fn == "pinUpdate" then { s with bounds := [] } else s)
+
+/-- the table of a source in which `Pin` replaces the watchdog by a plain `context.WithTimeout(ctx, PinTimeout)` -/
+def sitesPlainPinTimeout : List Dec.CtxSite :=
+  Gen.ctxSites.map (fun s => if s.fn == "Pin" && s.bounds != [] then { s with bounds := [.timeout "PinTimeout"] } else s)
+
+/-- a pin whose look-up is never answered -/
+def exLookupStall : Input :=
+  { op := .pin, n := 1, cid := 0, depth := -1, modeRec := true, src := none, norig := 0,
+    unpinDisable := false, table := fun _ => .u, script := [⟨200, .none, .empty, .stallHeaders⟩] }
+
+/-- a recursive pin whose pin/add stream stays alive with the progress number stuck -/
+def exNoProgress : Input :=
+  { op := .pin, n := 1, cid := 0, depth := -1, modeRec := true, src := none, norig := 0,
+    unpinDisable := false, table := fun _ => .u, script := [Beh.ok, ⟨200, .json, .stuck, .full⟩] }
+
+/-- refutations: each of the three edits leaves a pin to the caller's context, and the clause fails -/
+theorem ungoverned_lookup_breaks_pin :
+    wf exLookupStall = true ∧ (runCtx sitesNoLookupTimeout exLookupStall).res = .errctx ∧
+      cPinGivesUp exLookupStall ⟨(runCtx sitesNoLookupTimeout exLookupStall).res, [], [], fun _ => .u⟩ = false ∧
+      (runCtx Gen.ctxSites exLookupStall).res = .err := by decide
+
+theorem ungoverned_update_breaks_pin :
+    wf exUpdateStall = true ∧ (runCtx sitesNoUpdateTimeout exUpdateStall).res = .errctx ∧
+      (runCtx sitesNoUpdateTimeout exUpdateStall).trace = [.ls 0 true, .ls 1 true, .upd 1 0 false] ∧
+      (runCtx Gen.ctxSites exUpdateStall).res = .err := by decide
+
+theorem plain_deadline_is_no_watchdog :
+    allGoverned sitesPlainPinTimeout = false ∧
+      wf exNoProgress = true ∧ (runCtx sitesPlainPinTimeout exNoProgress).res = .errctx ∧
+      (runCtx sitesPlainPinTimeout exStall).res = .err ∧
+      (runCtx Gen.ctxSites exNoProgress).res = .err := by decide
+
+/-- the six single-request methods: governed ⇒ the interpreted model is the transcribed one, and a stalled
+request never ends with the caller's context -/
+theorem aux_runCtx_eq (sites : List Dec.CtxSite) (h : Aux.allGoverned sites = true) (i : Aux.In) :
+    Aux.runCtx sites i = Aux.run i := by
+  have hg : chainGoverned isDeadline sites i.op.chain = true := by
+    simp only [Aux.allGoverned, List.all_eq_true] at h
+    exact h i.op (by cases i.op <;> simp [Aux.Op.all])
+  simp [Aux.runCtx, hg]
+
+theorem aux_gives_up (i : Aux.In) : Aux.runCtx Gen.ctxSites i ≠ .errctx ∧ Aux.runCtx Gen.ctxSites i ≠ .hang := by
+  rw [aux_runCtx_eq _ gen_steps_governed.2]
+  exact ⟨(aux_returns i).2.2, (aux_returns i).1⟩
+
+/-- a stalled request of a method without a deadline would be left to the caller: RepoGC without `RepoGCTimeout` -/
+theorem ungoverned_aux_waits :
+    Aux.runCtx (Gen.ctxSites.map (fun s => if s.fn == "RepoGC" then { s with bounds := [] } else s))
+      ⟨.repoGC, ⟨200, .none, .empty, .stallHeaders⟩, 0⟩ = .errctx := by decide
 
 /-! ### The anchored functions still read as the model was transcribed (regenerated from /repo on every run) -/
 
